@@ -259,7 +259,7 @@ impl Mul<i64> for Unit {
 
         match q.checked_mul(factor) {
             Some(total_ns) => {
-                if total_ns.abs() < i64::MAX {
+                if total_ns.unsigned_abs() < i64::MAX as u64 {
                     Duration::from_truncated_nanoseconds(total_ns)
                 } else {
                     Duration::from_total_nanoseconds(i128::from(total_ns))
